@@ -120,11 +120,17 @@ func newFileFromLog(log map[string]string) Rule {
 	if slices.Compare(accesses, []string{"l"}) == 0 {
 		return newLinkFromLog(log)
 	}
+	name := log["name"]
+	if strings.Contains(log["info"], "disconnected path") && !strings.HasPrefix(name, "/") {
+		// Logged without its leading slash; attach_disconnected, which the
+		// record also asks for, attaches the path to the root
+		name = "/" + name
+	}
 	return &File{
 		Base:      newBaseFromLog(log),
 		Qualifier: newQualifierFromLog(log),
 		Owner:     IsOwner(log),
-		Path:      quoteAARE(log["name"]),
+		Path:      quoteAARE(name),
 		Access:    accesses,
 		Target:    quoteAARE(log["target"]),
 	}
